@@ -128,6 +128,7 @@ func c21(r *core.Run) {
 	c21Drain(r, p, f)
 	c21Unlock(r, p, f)
 	c21Siblings(r, p)
+	ruleLocalBufferLayout(r, p)
 }
 
 func c21Drain(r *core.Run, p *core.Prog, f *core.Fn) {
